@@ -41,6 +41,7 @@ SameRowBag(a, b) == Len(a) = Len(b) /\ \A j \in 1..Len(a) : CountIn(a, a[j]) = C
 
 SameInst(x, y) == x.cls = y.cls /\ SameRow(x.f, y.f)
 InstCount(s, x) == Cardinality({j \in 1..Len(s) : SameInst(s[j], x)})
+SameInstBag(a, b) == Len(a) = Len(b) /\ \A j \in 1..Len(a) : InstCount(a, a[j]) = InstCount(b, a[j])
 InferVerdict(exp, obs) ==
   IF \E j \in 1..Len(obs) : ~obs[j].fresh THEN "infer.not-new"
   ELSE IF \E j \in 1..Len(obs) : InstCount(exp, obs[j]) = 0 THEN "infer.extra"
@@ -80,8 +81,15 @@ EvVerdict(t, j) ==
                ELSE IF o.out = "value" /\ ~SameRow(o.row, ev.row) THEN "the.value"
                ELSE "ok"
        [] ev.op = "rule" ->
+            \* eqinst = j: the instances (class, field values) must be those event j observed, as a multiset - what C04 /
+            \* C05 say about any query whatever its meaning; nosem: the tree uses branches whose meaning the listed
+            \* properties do not fix (next_rule), so only that relation is judged
             IF ev.exc # "none" THEN "exception"
-            ELSE InferVerdict(RuleSeq(q, W), ev.insts)
+            ELSE LET sem == IF "nosem" \in DOMAIN ev /\ ev.nosem THEN "ok" ELSE InferVerdict(RuleSeq(q, W), ev.insts)
+                 IN IF sem # "ok" THEN sem
+                    ELSE IF "eqinst" \in DOMAIN ev /\ ev.eqinst > 0 /\ ~SameInstBag(ev.insts, t.evs[ev.eqinst].insts)
+                         THEN "insts.differ-from-other-evaluation"
+                    ELSE "ok"
        [] ev.op = "infer" ->
             IF ev.exc # "none" THEN "exception"
             ELSE InferVerdict(InferSeq(q, W), ev.insts)
